@@ -253,6 +253,16 @@ def self_chain(t):
     return list(reversed(names)) if t == V('self') and names else None
 
 
+def holder_chain(t):
+    """like self_chain, also through objects picked out of a table kept in a field: self.a[k].b -> ['a', 'b']"""
+    names = []
+    while t[0] in ('attr', 'sub'):
+        if t[0] == 'attr':
+            names.append(t[2])
+        t = t[1]
+    return list(reversed(names)) if t == V('self') and names else None
+
+
 def volatile_calls(ctx, t, kvars=()):
     """Questions put to a collaborator (self.x.m(...), self.x.y.m(...)) inside term t whose arguments carry none of the given variables and whose answer changes
     while the collaborator lives: every definition of m in the package reads - itself or through the methods it calls, three levels deep - a field that is
@@ -654,6 +664,28 @@ def _generation_tag(ctx, fn, ps, table, missing):
     return True
 
 
+def _table_is_read(M, m):
+    """some expression of the package reads attribute m other than to store an element into it or to empty it"""
+    cache = M.__dict__.setdefault('_table_read_cache', {})
+    if m not in cache:
+        read = False
+        for g in list(M.all_funcs()) + [M.module_func(mod_) for mod_ in M.mods]:
+            if g is None or read:
+                continue
+            skip = set()
+            for n in ast.walk(g.node):
+                if isinstance(n, ast.Subscript) and isinstance(n.ctx, (ast.Store, ast.Del)):
+                    skip.add(id(n.value))
+                elif isinstance(n, ast.Call) and isinstance(n.func, ast.Attribute) and n.func.attr == 'clear':
+                    skip.add(id(n.func.value))
+            for n in ast.walk(g.node):
+                if isinstance(n, ast.Attribute) and n.attr == m and isinstance(n.ctx, ast.Load) and id(n) not in skip:
+                    read = True
+                    break
+        cache[m] = read
+    return cache[m]
+
+
 def memo_tables(ctx, fn, ps):
     """Hand-rolled memoisation inside fn (paths ps): a dict field M of self with  hit: `K in self.M` -> return self.M[K]   miss: self.M[K] = V ; return V.
     -> {M: ('sound', K) | ('unsound', K, missing parameters) | ('other', reason)}.  Sound means: the stored value depends on parameters of fn only through
@@ -665,12 +697,17 @@ def memo_tables(ctx, fn, ps):
     for i, p in enumerate(ps):
         for w in heap_writes(p):
             # the table is a field of the object, or of a helper object the object keeps in a field (self._weighting.weight_by_count)
-            if w.loc[0] == 'sub' and w.how == 'assign' and self_chain(w.loc[1]) is not None:
+            if w.loc[0] == 'sub' and w.how == 'assign' and w.loc[1][0] == 'attr' and holder_chain(w.loc[1]) is not None:
                 writes.setdefault(w.loc[1][2], []).append((i, w))
                 tables[w.loc[1][2]] = w.loc[1]
     for m, ws in writes.items():
         table = tables[m]
-        holders = set(self_chain(table)[:-1])
+        if not _table_is_read(ctx.M, m):
+            continue        # entries are filed and nothing in the package ever looks one up: a record, not a memo
+        holders = set(holder_chain(table)[:-1])
+        # the object the table belongs to, when it is not self (self._calendars[asset]): what selects it is not an input of the entries - another object, another table
+        H_ = table[1]
+        unhold = (lambda t_: T.replace(t_, lambda z: ('var', '@holder') if z == H_ else None)) if H_ != V('self') else (lambda t_: t_)
         owner = ctx.M.funcs.get(ws[0][1].fn) or next((g_ for g_ in ctx.M.all_funcs() if g_.qn == ws[0][1].fn), None)
         owner_cls = owner.cls if owner is not None and owner.cls is not None else fn.cls
         inplace = [w for p in ps for w in heap_writes(p) if w.loc[0] in ('sub', 'attr') and any(s_ == table for s_ in T.subterms(w.loc[1]))
@@ -714,11 +751,14 @@ def memo_tables(ctx, fn, ps):
             Kw = w.loc[2]
             kparams = {s_[1] for s_ in T.subterms(Kw) if s_[0] == 'var'}
             katoms = _access_atoms(Kw, params)
-            deps = {s_[1] for s_ in T.subterms(w.value) if s_[0] == 'var' and s_[1] in params}
+            wv_ = unhold(w.value) if w.value is not None else w.value
+            deps = {s_[1] for s_ in T.subterms(wv_) if s_[0] == 'var' and s_[1] in params}
             for c, v_, _ in p.conds:
                 if c[0] == 'cmp' and c[1] == 'in' and c[3] == table:
                     continue
-                deps |= {s_[1] for s_ in T.subterms(c) if s_[0] == 'var' and s_[1] in params}
+                if any(s_ == ('sub', table, Kw) for s_ in T.subterms(c)):
+                    continue        # the look-up of the entry itself (EAFP form)
+                deps |= {s_[1] for s_ in T.subterms(unhold(c)) if s_[0] == 'var' and s_[1] in params}
             missing = sorted(deps - kparams)
             if not missing:
                 # finer than whole parameters: the value reads x.year, x.month, x.day while the key holds x.dayofyear only - which parts of an object (a parameter,
@@ -729,9 +769,9 @@ def memo_tables(ctx, fn, ps):
                     return z
                 kroots = {root_(k_) for k_ in katoms}
                 # (elements of loops the key does not speak about - the sources tried in turn for one answer - are not what the entry is "for")
-                missing = sorted({fmt(a_) for a_ in _access_atoms(w.value, params) if (root_(a_)[0] == 'var' or root_(a_) in kroots) and not _determined(a_, katoms)})
+                missing = sorted({fmt(a_) for a_ in _access_atoms(wv_, params) if (root_(a_)[0] == 'var' or root_(a_) in kroots) and not _determined(a_, katoms)})
             # (the helper objects the table hangs from are not inputs: replacing one of them replaces the table with it)
-            fields = {s_[2] for s_ in T.subterms(w.value) if s_[0] == 'attr' and self_chain(s_) is not None and s_[2] != m and s_[2] not in holders}
+            fields = {s_[2] for s_ in T.subterms(w.value) if s_[0] == 'attr' and holder_chain(s_) is not None and s_[2] != m and s_[2] not in holders}
             mutable = sorted(f_ for f_ in fields if owner_cls is not None and ctx.M.field_written_outside_init(owner_cls, f_))
             if missing:
                 pin = _generation_tag(ctx, fn, ps, table, missing)
@@ -750,7 +790,13 @@ def memo_tables(ctx, fn, ps):
                     for g in ctx.M.all_funcs():
                         if g.parent is not None or g.name == '__init__' or ctx.M.ctor_only(g):
                             continue
-                        if not any(isinstance(n_, ast.Attribute) and isinstance(n_.ctx, (ast.Store, ast.Del)) and n_.attr == f_ for n_ in ast.walk(g.node)):
+                        if owner_cls is not None and owner_cls.name.startswith('_') and g.path != owner_cls.path:
+                            continue        # objects of a module-private class are handled by their own module: `frame.index = ...` elsewhere is somebody else's attribute
+                        fam_ = ctx.M.owner_family(owner_cls.name) if owner_cls is not None else set()
+                        stores_ = [n_ for n_ in ast.walk(g.node) if isinstance(n_, ast.Attribute) and isinstance(n_.ctx, (ast.Store, ast.Del)) and n_.attr == f_]
+                        # (self.<f> = ... in a method of an unrelated class is that class's own field of the same name)
+                        stores_ = [n_ for n_ in stores_ if not (isinstance(n_.value, ast.Name) and n_.value.id == 'self' and g.cls is not None and g.cls.name not in fam_)]
+                        if not stores_:
                             continue
                         drops = any((isinstance(n_, ast.Attribute) and isinstance(n_.ctx, (ast.Store, ast.Del)) and n_.attr in ({m} | holders)) or
                                     (isinstance(n_, ast.Call) and isinstance(n_.func, ast.Attribute) and n_.func.attr == 'clear' and isinstance(n_.func.value, ast.Attribute)
